@@ -8,7 +8,7 @@ RULE = ("fault matrix: 14 fault kinds (operand type mismatch in 4 operator famil
         "non-boolean condition, wrong built-in argument type and count, list index out of range / negative / on an empty "
         "index, missing record key on read and on a write path, indexed write out of range, push/pop at an invalid "
         "position, calling a non-function, printing nil, _এরর(m)) x 10 statement positions (print, declaration, assignment, "
-        "expression statement, if condition, else-if condition, argument, index write, operand of ==, directly in a return operand) x call depth 0..3 "
+        "expression statement, if condition, else-if condition, argument, index write, operand of ==, directly in a return operand, and after a user-function call that already returned in the same statement: list literal element, right operand of ==) x call depth 0..3 "
         "x main file / imported module, after a random number of preceding prints. Oracle computed by the generator: "
         "output = exactly the preceding prints, status = error, line = the faulting statement's line, file = the file it "
         "is written in, message = m for _এরর. Also compared with the Lean model (class, line, file, message). The command "
@@ -60,6 +60,11 @@ def fault_stmt(pos, fe, ok_expr):
         return [("assign", "তালিকা", [G.num(0)], fe)]
     if pos == 9:
         return [("return", fe)]              # directly in a return operand (only used at call depth >= 1)
+    if pos == 10:
+        # a user-function call has already returned when the fault happens, in the same statement
+        return [("print", G.lst(G.call("একই", G.num(1)), fe))]
+    if pos == 11:
+        return [("print", G.bin_("==", G.call("একই", G.num(1)), fe))]
     return [("print", G.bin_("==", fe, ok_expr))]
 
 
@@ -70,6 +75,9 @@ SPECIAL = [
     ("index-write-empty-index", [("rawstmt", [("তালিকা", "word"), ("[", "op"), ("]", "op"), ("=", "op"), ("১", "num"), (";", "op")])], "runtime"),
     ("write-path-missing-key", [("assign", "নথি", [G.s("নাই"), G.s("x")], G.num(1))], "runtime"),
     ("write-path-wrong-kind", [("assign", "তালিকা", [G.s("k")], G.num(1))], "runtime"),
+    ("index-write-after-call-in-index", [("assign", "তালিকা", [G.call("একই", G.num(7))], G.num(1))], "runtime"),
+    ("index-write-after-call-in-value", [("assign", "তালিকা", [G.num(5)], G.call("একই", G.num(1)))], "runtime"),
+    ("error-builtin-with-call-argument", [("expr", G.call("_এরর", G.call("একই", G.s("ডাকের পরে"))))], "runtime"),
     ("print-nil", [("decl", "শূন্য", None), ("print", G.var("শূন্য"))], "type"),
     ("print-function", [("print", G.var("একই"))], "type"),
     ("stray-else", [("rawstmt", [("অথবা", "word"), ("{", "op"), ("}", "op")])], "runtime"),
@@ -150,12 +158,14 @@ def cases(rng, tier, stats):
     n = 0
     kinds = {}
     for fi, (fname, fmk, cls) in enumerate(FAULTS):
-        for pos in range(10):
+        for pos in range(12):
             for depth in (0, 1, 2, 3):
                 for in_module in (False, True):
                     if pos == 9 and depth == 0:
                         continue
-                    if tier != "thorough" and pos != 9 and (fi * 7 + pos * 3 + depth + in_module) % 4 != 0:
+                    if tier != "thorough" and pos in (10, 11) and (fi + pos + depth + in_module) % 2 != 0:
+                        continue
+                    if tier != "thorough" and pos not in (9, 10, 11) and (fi * 7 + pos * 3 + depth + in_module) % 4 != 0:
                         continue
                     if tier != "thorough" and pos == 9 and (fi + depth + in_module) % 2 != 0:
                         continue
